@@ -11,6 +11,8 @@ package limitscheck
 //
 //	{"a":"TakeMsg","m","ip","src"}   target.Start(msgMeta{RemoteAddr ip}, "m@src")
 //	{"a":"TakeDest","m","d"}          delivery.AddRcpt("u@d")  (first recipient of the domain)
+//	{"a":"TakeDest","m","d","reqtls":true}  the same with REQUIRETLS set on the message: the plaintext next
+//	                                  hop cannot satisfy it, the attempt is refused (550 5.7.30) -> res "refused"
 //	{"a":"MailReject","m","d"}        (plan) the next hop refuses this delivery's MAIL for d
 //	{"a":"End","m","how"}             how the delivery ends:
 //	    abort     delivery.Abort()                                   (connections go back to the pool)
@@ -43,6 +45,7 @@ import (
 	"github.com/emersion/go-smtp"
 	"github.com/foxcpp/go-mockdns"
 	"github.com/foxcpp/maddy/framework/buffer"
+	"github.com/foxcpp/maddy/framework/exterrors"
 	"github.com/foxcpp/maddy/framework/log"
 	"github.com/foxcpp/maddy/framework/module"
 	"github.com/foxcpp/maddy/internal/smtpconn/pool"
@@ -139,7 +142,8 @@ func (w *rworld) serve(c net.Conn, domain string) {
 
 type rclient struct {
 	client
-	d module.Delivery
+	d    module.Delivery
+	meta *module.MsgMetadata
 }
 
 type rrun struct {
@@ -169,13 +173,13 @@ func classifyErr(err error) string {
 	return "full"
 }
 
-func (r *rrun) rcall(c *rclient, op, ip, src, d, how string) {
+func (r *rrun) rcall(c *rclient, op, ip, src, d, how string, reqtls bool) {
 	prev := r.parked()
 	defer func() { r.resume(prev) }()
 	r.mu.Lock()
 	c.pending, c.op = true, op
 	r.mu.Unlock()
-	r.tr.Emit("Call", vtrace.Ev{"m": c.name, "op": op, "ip": ip, "src": src, "d": d, "how": how})
+	r.tr.Emit("Call", vtrace.Ev{"m": c.name, "op": op, "ip": ip, "src": src, "d": d, "how": how, "reqtls": reqtls})
 	from := c.name + "@" + src
 	go func() {
 		r.enter(c.name)
@@ -217,11 +221,16 @@ func (r *rrun) rcall(c *rclient, op, ip, src, d, how string) {
 			if err != nil {
 				detail = err.Error()
 			} else {
-				c.d = dl
+				c.d, c.meta = dl, meta
 			}
 		case "TakeDest":
+			c.meta.SMTPOpts.RequireTLS = reqtls
 			err := c.d.AddRcpt(ctx, "u@"+d, smtp.RcptOptions{})
-			if err != nil {
+			c.meta.SMTPOpts.RequireTLS = false
+			var se *exterrors.SMTPError
+			if err != nil && reqtls && errors.As(err, &se) && se.Code == 550 && se.EnhancedCode == (exterrors.EnhancedCode{5, 7, 30}) {
+				res, detail = "refused", err.Error()
+			} else if err != nil {
 				detail = err.Error()
 				r.w.mu.Lock()
 				k := c.name + "@" + c.src + "|" + d
@@ -284,7 +293,7 @@ func (r *rrun) rstep(st Step, rejectNext bool) {
 			r.skip(st, "delivery already open")
 			return
 		}
-		r.rcall(c, "TakeMsg", st.IP, st.Src, "", "")
+		r.rcall(c, "TakeMsg", st.IP, st.Src, "", "", false)
 	case "TakeDest":
 		if !msg || hasD {
 			r.skip(st, "no open delivery / domain already connected")
@@ -297,7 +306,7 @@ func (r *rrun) rstep(st Step, rejectNext bool) {
 			r.w.reject[c.name+"@"+src+"|"+st.D] = true
 		}
 		r.w.mu.Unlock()
-		r.rcall(c, "TakeDest", "", "", st.D, "")
+		r.rcall(c, "TakeDest", "", "", st.D, "", st.Reqtls)
 	case "End":
 		if !msg {
 			r.skip(st, "no open delivery")
@@ -318,7 +327,7 @@ func (r *rrun) rstep(st Step, rejectNext bool) {
 		}
 		r.mu.Unlock()
 		r.w.mu.Unlock()
-		r.rcall(c, "End", "", "", "", how)
+		r.rcall(c, "End", "", "", "", how, false)
 	default:
 		r.skip(st, "not a remote-level step")
 		return
